@@ -1,6 +1,392 @@
-import Utv.Model.C14P0
+import Utv.Lemmas.C14Struct
+/-!
+C14 — JSON encoding round-trips through the parser.
+
+Full statement (the property): for every data class over the listed field types and every instance `x`
+in the JSON-faithful domain, `encode x` succeeds, the text is standard JSON, and
+`parse T (loads (dumps (encode x)))` returns an instance equal to `x` (Python `==`: `canon y = canon x`).
+
+* `C14_roundtrip_partial` / `C14_roundtrip_text_partial` — the round trip, for every implementation `P` of
+  the CPython builtins that satisfies `PrimLaws`, every declared type (no bound on nesting, sizes, digits)
+  and every in-domain instance, on the repaired code (`Cfg.fixed`); partial because one `KnownDefect`
+  stays: `Ty.setOfContainers` (a `Set[Tuple[...]]` field cannot be parsed back).
+* `C14_standard_partial` — the encoded tree is standard JSON unless the instance holds an infinite float
+  (`KnownDefect` `Val.hasInf`: `json.dumps` writes `Infinity`).
+* witnesses (`by decide` on the concrete builtins `P0`) that both exclusions are real, that each of the four
+  repaired defects was one (`Cfg.legacy`), and non-vacuity: `PrimLaws P0` (`C14_primlaws_P0`).
+-/
 namespace Utv.C14
 
-theorem C14_stub : (1 : Nat) = 1 := rfl
+@[simp] theorem Res.bind_ok {α β : Type} (a : α) (f : α → Res β) : (Res.ok a >>= f) = f a := rfl
+@[simp] theorem Res.pure_eq {α : Type} (a : α) : (pure a : Res α) = Res.ok a := rfl
+
+/-- what the round trip establishes for one value of declared type `T` -/
+structure Good (P : Prims) (T : Ty) (x : Val) (j : Js) (y : Val) : Prop where
+  enc : encode Cfg.fixed P x = .ok j
+  par : parse Cfg.fixed P T j = .ok y
+  eq : y.canon = x.canon
+  std : x.hasInf = false → j.standard = true
+  wf : j.wf = true
+
+theorem list_good (P : Prims) (t : Ty)
+    (ih : ∀ x, inDomain Cfg.fixed t x = true → ∃ j y, Good P t x j y) :
+    ∀ xs : List Val, xs.all (inDomain Cfg.fixed t) = true →
+      ∃ js ys, encodeList Cfg.fixed P xs = .ok js ∧ mapRes (parse Cfg.fixed P t) js = .ok ys
+        ∧ canonList ys = canonList xs ∧ (hasInfList xs = false → standardList js = true) ∧ wfList js = true
+        ∧ (∀ j ∈ js, ∃ x ∈ xs, inDomain Cfg.fixed t x = true ∧ encode Cfg.fixed P x = .ok j)
+  | [], _ => ⟨[], [], rfl, rfl, rfl, fun _ => rfl, rfl, by simp⟩
+  | x :: xs, h => by
+    simp only [List.all_cons, Bool.and_eq_true] at h
+    obtain ⟨j, y, g⟩ := ih x h.1
+    obtain ⟨js, ys, h1, h2, h3, h4, h5, h6⟩ := list_good P t ih xs h.2
+    refine ⟨j :: js, y :: ys, ?_, ?_, ?_, ?_, ?_, ?_⟩
+    · simp [encodeList, g.enc, h1]
+    · simp [mapRes, g.par, h2]
+    · simp [canonList, g.eq, h3]
+    · intro hi
+      simp only [hasInfList, Bool.or_eq_false_iff] at hi
+      simp [standardList, g.std hi.1, h4 hi.2]
+    · simp [wfList, g.wf, h5]
+    · intro j' hj'
+      rcases List.mem_cons.mp hj' with e | e
+      · exact ⟨x, by simp, h.1, e ▸ g.enc⟩
+      · obtain ⟨x', hx', hd', he'⟩ := h6 j' e
+        exact ⟨x', by simp [hx'], hd', he'⟩
+
+/-- a value of a type that is not written as an array/object is not encoded as one -/
+theorem enc_scalar (P : Prims) (t : Ty) (x : Val) (j : Js)
+    (ht : (match t with
+      | .list _ | .set _ | .tuple _ | .tupleVar _ | .dict _ _ | .data _ => true
+      | _ => false) = false)
+    (hd : inDomain Cfg.fixed t x = true) (he : encode Cfg.fixed P x = .ok j) : j.isContainer = false := by
+  cases t <;> simp at ht <;> cases x <;> simp [inDomain] at hd <;> simp [encode] at he
+  all_goals first
+    | (subst he; rfl)
+    | skip
+  · -- Decimal
+    rename_i d
+    subst he
+    unfold fromDecimal
+    cases d <;> simp only [] <;> (repeat' split) <;> rfl
+  · -- Enum
+    rename_i decl decl' i
+    split at he
+    · rename_i nm v hv
+      cases v <;> (simp [EVal.toJson] at he; subst he; rfl)
+    · simp at he
+
+theorem map_good (P : Prims) (hP : PrimLaws P) (k : KeyTy) (t : Ty)
+    (ih : ∀ x, inDomain Cfg.fixed t x = true → ∃ j y, Good P t x j y) :
+    ∀ kvs : List (Key × Val), kvs.all (fun kv => kv.1.hasTy k && inDomain Cfg.fixed t kv.2) = true →
+      distinct (kvs.map (·.1)) = true →
+      ∃ js ys, encodeKVs Cfg.fixed P kvs = .ok js
+        ∧ parseMapWith (parseKey P k) (parse Cfg.fixed P t) js = .ok ys
+        ∧ canonKVs ys = canonKVs kvs ∧ ys.map (·.1) = kvs.map (·.1)
+        ∧ (hasInfKVs kvs = false → standardKVs js = true) ∧ wfKVs js = true
+        ∧ js.map (·.1) = kvs.map (fun kv => kv.1.toStr)
+  | [], _, _ => ⟨[], [], rfl, rfl, rfl, rfl, fun _ => rfl, rfl, rfl⟩
+  | (key, x) :: kvs, h, hd => by
+    simp only [List.all_cons, Bool.and_eq_true] at h
+    simp only [List.map_cons, distinct, Bool.and_eq_true, Bool.not_eq_eq_eq_not, Bool.not_true] at hd
+    obtain ⟨j, y, g⟩ := ih x h.1.2
+    obtain ⟨js, ys, h1, h2, h3, h4, h5, h6, h7⟩ := map_good P hP k t ih kvs h.2 hd.2
+    have hkey : parseKey P k key.toStr = .ok key := by
+      cases k <;> cases key <;> simp [Key.hasTy] at h
+      · rfl
+      · simp [parseKey, Key.toStr, rt_intKey P hP]
+    have hfind : ys.find? (fun kv => kv.1 == key) = none :=
+      find?_none_of_not_mem key ys (by rw [h4]; exact hd.1)
+    refine ⟨(key.toStr, j) :: js, (key, y) :: ys, ?_, ?_, ?_, ?_, ?_, ?_, ?_⟩
+    · simp [encodeKVs, g.enc, h1]
+    · simp [parseMapWith, hkey, g.par, h2, hfind]
+    · simp [canonKVs, g.eq, h3]
+    · simp [h4]
+    · intro hi
+      simp only [hasInfKVs, Bool.or_eq_false_iff] at hi
+      simp [standardKVs, g.std hi.1, h5 hi.2]
+    · simp [wfKVs, g.wf, h6]
+    · simp [h7]
+
+mutual
+theorem rt (P : Prims) (hP : PrimLaws P) : (T : Ty) → (x : Val) → inDomain Cfg.fixed T x = true →
+    T.setOfContainers = false → ∃ j y, Good P T x j y
+  | .none, x, hd, _ => by
+    cases x <;> simp [inDomain] at hd
+    exact ⟨.null, .none, by simp [encode], by simp [parse], rfl, fun _ => rfl, rfl⟩
+  | .bool, x, hd, _ => by
+    cases x <;> simp [inDomain] at hd
+    rename_i b
+    exact ⟨.bool b, .bool b, by simp [encode], by simp [parse], rfl, fun _ => rfl, rfl⟩
+  | .int, x, hd, _ => by
+    cases x <;> simp [inDomain] at hd
+    rename_i i
+    exact ⟨.int i, .int i, by simp [encode], by simp [parse], rfl, fun _ => rfl, rfl⟩
+  | .float, x, hd, _ => by
+    cases x <;> simp [inDomain] at hd
+    rename_i f
+    refine ⟨.float f, .float f, by simp [encode], by simp [parse], rfl, ?_, rfl⟩
+    intro hi
+    cases f <;> simp_all [Val.hasInf, Js.standard, F.isFinite, F.isNan]
+  | .str, x, hd, _ => by
+    cases x <;> simp [inDomain] at hd
+    rename_i s
+    exact ⟨.str s, .str s, by simp [encode], by simp [parse], rfl, fun _ => rfl, rfl⟩
+  | .bytes, x, hd, _ => by
+    cases x <;> simp [inDomain] at hd
+    rename_i b
+    exact ⟨.str (P.utf8Decode b), .bytes b, by simp [encode], by simp [parse, hP.utf8_rt b hd], rfl, fun _ => rfl, rfl⟩
+  | .dec, x, hd, _ => by
+    cases x <;> simp [inDomain] at hd
+    rename_i d
+    obtain ⟨d', h1, h2⟩ := rt_dec P hP d hd
+    refine ⟨fromDecimal Cfg.fixed P d, .dec d', by simp [encode], by simp [parse, h1], by simp [Val.canon, h2], ?_, ?_⟩
+    · intro _
+      unfold fromDecimal
+      cases d with
+      | fin neg c e =>
+        simp only []
+        (repeat' split) <;> try rfl
+        rename_i hu _ ht
+        simp only [Dec.inDomain, Bool.and_eq_true, decide_eq_true_eq] at hd
+        have := (hP.dec_float neg c e hd.1 (by simpa using hu) (by simpa [Cfg.fixed] using ht)).1
+        simpa [Js.standard] using this
+      | inf _ => rfl
+      | nan => rfl
+    · unfold fromDecimal
+      cases d <;> simp only [] <;> (repeat' split) <;> rfl
+  | .date, x, hd, _ => by
+    cases x <;> simp [inDomain] at hd
+    rename_i d
+    exact ⟨.str (isoDate d), .date d, by simp [encode], by simp [parse, rt_date P hP d hd], rfl, fun _ => rfl, rfl⟩
+  | .datetime, x, hd, _ => by
+    cases x <;> simp [inDomain] at hd
+    rename_i dt
+    exact ⟨.str (isoDateTime dt), .datetime dt, by simp [encode], by simp [parse, rt_datetime P hP dt hd.1],
+      rfl, fun _ => rfl, rfl⟩
+  | .time, x, hd, _ => by
+    cases x <;> simp [inDomain] at hd
+    rename_i t
+    exact ⟨.str (fromTime Cfg.fixed t), .time t, by simp [encode],
+      by simp [parse, rt_time P hP t hd.1.1.1 hd.1.1.2 hd.1.2], rfl, fun _ => rfl, rfl⟩
+  | .delta, x, hd, _ => by
+    cases x <;> simp [inDomain] at hd
+    rename_i us
+    exact ⟨.str (durationIso us), .delta us, by simp [encode], by simp [parse, rt_delta P hP us hd], rfl, fun _ => rfl, rfl⟩
+  | .uuid, x, hd, _ => by
+    cases x <;> simp [inDomain] at hd
+    rename_i n
+    exact ⟨.str (P.uuidStr n), .uuid n, by simp [encode], by simp [parse, hP.uuid_rt n hd], rfl, fun _ => rfl, rfl⟩
+  | .enum decl, x, hd, _ => by
+    cases x <;> simp [inDomain] at hd
+    rename_i decl' i
+    obtain ⟨⟨⟨hdecl, hwf⟩, hi⟩, _⟩ := hd
+    subst hdecl
+    obtain ⟨m, hm, hto⟩ := rt_enum decl i hwf hi
+    refine ⟨m.2.toJson, .enum decl i, by simp [encode, hm], by simp [parse, hto], rfl, ?_, ?_⟩
+    · intro _; cases m.2 <;> rfl
+    · cases m.2 <;> rfl
+  | .list t, x, hd, hk => by
+    cases x <;> simp [inDomain] at hd
+    rename_i xs
+    have hk' : t.setOfContainers = false := by simpa [Ty.setOfContainers] using hk
+    obtain ⟨js, ys, h1, h2, h3, h4, h5, _⟩ :=
+      list_good P t (fun x hx => rt P hP t x hx hk') xs (by simpa using hd)
+    exact ⟨.arr js, .list ys, by simp [encode, h1], by simp [parse, h2], by simp [Val.canon, h3],
+      by simpa [Val.hasInf, Js.standard] using h4, by simpa [Js.wf] using h5⟩
+  | .tupleVar t, x, hd, hk => by
+    cases x <;> simp [inDomain] at hd
+    rename_i xs
+    have hk' : t.setOfContainers = false := by simpa [Ty.setOfContainers] using hk
+    obtain ⟨js, ys, h1, h2, h3, h4, h5, _⟩ :=
+      list_good P t (fun x hx => rt P hP t x hx hk') xs (by simpa using hd)
+    exact ⟨.arr js, .tuple ys, by simp [encode, h1], by simp [parse, h2], by simp [Val.canon, h3],
+      by simpa [Val.hasInf, Js.standard] using h4, by simpa [Js.wf] using h5⟩
+  | .set t, x, hd, hk => by
+    cases x <;> simp [inDomain] at hd
+    rename_i xs
+    simp only [Ty.setOfContainers, Bool.or_eq_false_iff] at hk
+    obtain ⟨js, ys, h1, h2, h3, h4, h5, h6⟩ :=
+      list_good P t (fun x hx => rt P hP t x hx hk.2) xs (by simpa using hd.1)
+    have hnc : js.any Js.isContainer = false := by
+      rw [List.any_eq_false]
+      intro j hj
+      obtain ⟨x, _, hdx, hex⟩ := h6 j hj
+      simp [enc_scalar P t x j hk.1 hdx hex]
+    have hdd := dedup_of_distinct ys xs h3 hd.2
+    exact ⟨.arr js, .set ys, by simp [encode, h1], by simp [parse, hnc, h2, hdd], by simp [Val.canon, h3],
+      by simpa [Val.hasInf, Js.standard] using h4, by simpa [Js.wf] using h5⟩
+  | .tuple ts, x, hd, hk => by
+    cases x <;> simp [inDomain] at hd
+    rename_i xs
+    obtain ⟨js, ys, h1, h2, h3, h4, h5⟩ := rtTuple P hP ts xs hd (by simpa [Ty.setOfContainers] using hk)
+    exact ⟨.arr js, .tuple ys, by simp [encode, h1], by simp [parse, h2], by simp [Val.canon, h3],
+      by simpa [Val.hasInf, Js.standard] using h4, by simpa [Js.wf] using h5⟩
+  | .dict k t, x, hd, hk => by
+    cases x <;> simp [inDomain] at hd
+    rename_i kvs
+    have hk' : t.setOfContainers = false := by simpa [Ty.setOfContainers] using hk
+    have hall : kvs.all (fun kv => kv.1.hasTy k && inDomain Cfg.fixed t kv.2) = true := by
+      simp only [List.all_eq_true, Bool.and_eq_true]
+      intro kv hkv
+      exact hd.1 kv.1 kv.2 hkv
+    obtain ⟨js, ys, h1, h2, h3, h4, h5, h6, h7⟩ :=
+      map_good P hP k t (fun x hx => rt P hP t x hx hk') kvs hall hd.2
+    have hdk : distinct (js.map (·.1)) = true := by
+      have e : kvs.map (fun kv => kv.1.toStr) = (kvs.map (·.1)).map Key.toStr := by simp
+      rw [h7, e]
+      apply distinct_map_of_inj Key.toStr _ _ hd.2
+      intro a ha b hb hab
+      obtain ⟨⟨a', xa⟩, hma, rfl⟩ := List.mem_map.mp ha
+      obtain ⟨⟨b', xb⟩, hmb, rfl⟩ := List.mem_map.mp hb
+      exact Key.toStr_inj (hd.1 a' xa hma).1 (hd.1 b' xb hmb).1 hab
+    exact ⟨.obj js, .dict ys, by simp [encode, h1], by simp [parse, h2], by simp [Val.canon, h3],
+      by simpa [Val.hasInf, Js.standard] using h5, by simp [Js.wf, h6, hdk]⟩
+  | .data fs, x, hd, hk => by
+    cases x <;> simp [inDomain] at hd
+    rename_i vs
+    obtain ⟨js, ys, h1, h2, h3, h4, h5, h6, h7⟩ :=
+      rtFields P hP fs vs hd.1 (by simpa [Ty.setOfContainers] using hk)
+    have hnames : js.map (·.1) = fs.map (·.1) := h2
+    have hdk : distinct (js.map (·.1)) = true := by rw [hnames]; exact hd.2
+    have hpar := h5 js (fun n j hm => lookup_of_mem_distinct js n j hdk hm)
+    exact ⟨.obj js, .data ys, by simp [encode, h1], by simp [parse, hpar], by simp [Val.canon, h4],
+      by simpa [Val.hasInf, Js.standard] using h6, by simp [Js.wf, h7, hdk]⟩
+  | .optional _, _, hd, _ => by simp [inDomain] at hd
+theorem rtTuple (P : Prims) (hP : PrimLaws P) : (ts : List Ty) → (xs : List Val) →
+    inDomainTuple Cfg.fixed ts xs = true → setOfContainersList ts = false →
+    ∃ js ys, encodeList Cfg.fixed P xs = .ok js ∧ parseTuple Cfg.fixed P ts js = .ok ys
+      ∧ canonList ys = canonList xs ∧ (hasInfList xs = false → standardList js = true) ∧ wfList js = true
+  | [], xs, hd, _ => by
+    cases xs <;> simp [inDomainTuple] at hd
+    exact ⟨[], [], rfl, by simp [parseTuple], rfl, fun _ => rfl, rfl⟩
+  | t :: ts, xs, hd, hk => by
+    cases xs with
+    | nil => simp [inDomainTuple] at hd
+    | cons x xs =>
+      simp only [inDomainTuple, Bool.and_eq_true] at hd
+      simp only [setOfContainersList, Bool.or_eq_false_iff] at hk
+      obtain ⟨j, y, g⟩ := rt P hP t x hd.1 hk.1
+      obtain ⟨js, ys, h1, h2, h3, h4, h5⟩ := rtTuple P hP ts xs hd.2 hk.2
+      refine ⟨j :: js, y :: ys, by simp [encodeList, g.enc, h1], by simp [parseTuple, g.par, h2],
+        by simp [canonList, g.eq, h3], ?_, by simp [wfList, g.wf, h5]⟩
+      intro hi
+      simp only [hasInfList, Bool.or_eq_false_iff] at hi
+      simp [standardList, g.std hi.1, h4 hi.2]
+theorem rtFields (P : Prims) (hP : PrimLaws P) : (fs : List (Str × Ty)) → (vs : List (Str × Val)) →
+    inDomainFields Cfg.fixed fs vs = true → setOfContainersFields fs = false →
+    ∃ js ys, encodeFields Cfg.fixed P vs = .ok js ∧ js.map (·.1) = fs.map (·.1) ∧ ys.map (·.1) = fs.map (·.1)
+      ∧ canonFields ys = canonFields vs
+      ∧ (∀ all : List (Str × Js), (∀ n j, (n, j) ∈ js → lookup n all = some j) → parseFields Cfg.fixed P fs all = .ok ys)
+      ∧ (hasInfFields vs = false → standardKVs js = true) ∧ wfKVs js = true
+  | [], vs, hd, _ => by
+    cases vs <;> simp [inDomainFields] at hd
+    exact ⟨[], [], rfl, rfl, rfl, rfl, fun _ _ => by simp [parseFields], fun _ => rfl, rfl⟩
+  | (n, t) :: fs, vs, hd, hk => by
+    cases vs with
+    | nil => simp [inDomainFields] at hd
+    | cons v vs =>
+      obtain ⟨n', x⟩ := v
+      simp only [inDomainFields, Bool.and_eq_true, beq_iff_eq] at hd
+      simp only [setOfContainersFields, Bool.or_eq_false_iff] at hk
+      obtain ⟨⟨hn, hdx⟩, hdr⟩ := hd
+      subst hn
+      obtain ⟨j, y, g⟩ := rt P hP t x hdx hk.1
+      obtain ⟨js, ys, h1, h2, h3, h4, h5, h6, h7⟩ := rtFields P hP fs vs hdr hk.2
+      refine ⟨(n, j) :: js, (n, y) :: ys, by simp [encodeFields, g.enc, h1], by simp [h2], by simp [h3],
+        by simp [canonFields, g.eq, h4], ?_, ?_, by simp [wfKVs, g.wf, h7]⟩
+      · intro all hall
+        have hl : lookup n all = some j := hall n j (by simp)
+        have hr := h5 all (fun n' j' hm => hall n' j' (by simp [hm]))
+        simp [parseFields, hl, g.par, hr]
+      · intro hi
+        simp only [hasInfFields, Bool.or_eq_false_iff] at hi
+        simp [standardKVs, g.std hi.1, h6 hi.2]
+end
+
+
+/-! ### the property -/
+
+/-- **Round trip** (tree level).  Full statement: for every lawful `P`, declared type `T` and in-domain
+instance `x`: `encode x = ok j`, `parse T j = ok y`, `y == x`.  Partial: `T` has no `Set[<container>]`
+(known finding `set-of-tuples-unhashable`, see `C14_set_of_tuples_witness`). -/
+theorem C14_roundtrip_partial (P : Prims) (hP : PrimLaws P) (T : Ty) (x : Val)
+    (hd : inDomain Cfg.fixed T x = true) (hk : T.setOfContainers = false) :
+    ∃ j y, encode Cfg.fixed P x = .ok j ∧ parse Cfg.fixed P T j = .ok y ∧ y.canon = x.canon := by
+  obtain ⟨j, y, g⟩ := rt P hP T x hd hk
+  exact ⟨j, y, g.enc, g.par, g.eq⟩
+
+/-- **Round trip through the text**: `Cls.__from__(json.dumps(inst, cls=JSONEncoder))` equals `inst` for every
+data class `fs` — the JSON text layer is `P.jsonDumps` / `P.jsonLoads` under the law `json_rt`. -/
+theorem C14_roundtrip_text_partial (P : Prims) (hP : PrimLaws P) (fs : List (Str × Ty)) (x : Val)
+    (hd : inDomain Cfg.fixed (.data fs) x = true) (hk : (Ty.data fs).setOfContainers = false) :
+    ∃ j y, encode Cfg.fixed P x = .ok j ∧ parseText Cfg.fixed P fs (P.jsonDumps j) = .ok y ∧ y.canon = x.canon := by
+  obtain ⟨j, y, g⟩ := rt P hP (.data fs) x hd hk
+  exact ⟨j, y, g.enc, by simp [parseText, hP.json_rt j g.wf, g.par], g.eq⟩
+
+/-- **Encoding succeeds** on the whole domain (no exclusion). -/
+theorem C14_encode_succeeds (P : Prims) (hP : PrimLaws P) (T : Ty) (x : Val)
+    (hd : inDomain Cfg.fixed T x = true) (hk : T.setOfContainers = false) :
+    ∃ j, encode Cfg.fixed P x = .ok j ∧ j.wf = true := by
+  obtain ⟨j, y, g⟩ := rt P hP T x hd hk
+  exact ⟨j, g.enc, g.wf⟩
+
+/-- **Standard JSON**.  Full statement: the encoded tree of every in-domain instance has only finite numbers.
+Partial: the instance holds no infinite float (known finding `float-inf-nonstandard-json`). -/
+theorem C14_standard_partial (P : Prims) (hP : PrimLaws P) (T : Ty) (x : Val)
+    (hd : inDomain Cfg.fixed T x = true) (hk : T.setOfContainers = false) (hi : x.hasInf = false) :
+    ∃ j, encode Cfg.fixed P x = .ok j ∧ j.standard = true := by
+  obtain ⟨j, y, g⟩ := rt P hP T x hd hk
+  exact ⟨j, g.enc, g.std hi⟩
+
+/-! ### the exclusions are real (negations with witnesses), for every `P` -/
+
+/-- `Set[Tuple[int, int]]`, `{(1, 2)}`: in the domain, encodes to `[[1, 2]]`, does not parse back. -/
+theorem C14_set_of_tuples_witness (P : Prims) :
+    let T := Ty.set (.tuple [.int, .int])
+    let x := Val.set [.tuple [.int 1, .int 2]]
+    inDomain Cfg.fixed T x = true ∧ T.setOfContainers = true
+      ∧ encode Cfg.fixed P x = .ok (.arr [.arr [.int 1, .int 2]])
+      ∧ parse Cfg.fixed P T (.arr [.arr [.int 1, .int 2]]) = .perr := by
+  refine ⟨by decide, by decide, ?_, ?_⟩
+  · simp [encode, encodeList]
+  · simp [parse, Js.isContainer]
+
+/-- `float('inf')` is in the domain (a float that is not NaN), round-trips, but its encoding is not standard JSON. -/
+theorem C14_inf_not_standard_witness (P : Prims) :
+    inDomain Cfg.fixed .float (.float (.inf false)) = true
+      ∧ encode Cfg.fixed P (.float (.inf false)) = .ok (.float (.inf false))
+      ∧ (Js.float (.inf false)).standard = false
+      ∧ parse Cfg.fixed P .float (.float (.inf false)) = .ok (.float (.inf false)) := by
+  refine ⟨by decide, ?_, by decide, ?_⟩
+  · simp [encode]
+  · simp [parse]
+
+/-! ### the repaired defects were defects (model of the code before each `fix:` patch) -/
+
+def shadowEnum : EnumDecl := ⟨.none, [("A".toList, .str "B".toList), ("B".toList, .str "C".toList)]⟩
+
+/-- `class E(Enum): A = 'B'; B = 'C'` — before the repair `E.A` came back as `E.B`; after it as `E.A`. -/
+theorem C14_enum_shadow_legacy_witness (P : Prims) :
+    encode Cfg.legacy P (.enum shadowEnum 0) = .ok (.str "B".toList)
+      ∧ parse Cfg.legacy P (.enum shadowEnum) (.str "B".toList) = .ok (.enum shadowEnum 1)
+      ∧ parse Cfg.fixed P (.enum shadowEnum) (.str "B".toList) = .ok (.enum shadowEnum 0) := by
+  refine ⟨?_, ?_, ?_⟩
+  · simp [encode, shadowEnum, EVal.toJson]
+  · simp [parse, toEnum, shadowEnum, findIdx?, Cfg.legacy]
+  · simp [parse, toEnum, shadowEnum, findIdx?, Cfg.fixed]
+
+/-- `Decimal('1E-400')`: where `float(d)` underflows to zero (CPython), the old encoder wrote `0.0` and the
+value came back as `Decimal('0')`; the repaired encoder writes the string `str(d)`. -/
+theorem C14_dec_tiny_legacy_witness (P : Prims) (h0 : (P.floatOfDec (.fin false 1 (-400))).isZero = true) :
+    ∃ j, encode Cfg.legacy P (.dec (.fin false 1 (-400))) = .ok j
+      ∧ parse Cfg.legacy P .dec j = .ok (.dec (.fin false 0 0))
+      ∧ (Val.dec (.fin false 0 0)).canon ≠ (Val.dec (.fin false 1 (-400))).canon
+      ∧ encode Cfg.fixed P (.dec (.fin false 1 (-400))) = .ok (.str (P.decStr (.fin false 1 (-400)))) := by
+  have hu : jsUnsafe 1 (-400) = false := by decide +kernel
+  have ht : decTiny 1 (-400) = true := by decide +kernel
+  refine ⟨.float (P.floatOfDec (.fin false 1 (-400))), ?_, ?_, by simp [Val.canon, Dec.canon, stripZeros], ?_⟩
+  · simp [encode, fromDecimal, hu, Cfg.legacy]
+  · simp [parse, toDecimal, h0]
+  · simp [encode, fromDecimal, hu, ht, Cfg.fixed]
 
 end Utv.C14
